@@ -249,6 +249,11 @@ class Lemma:
         # child preconditions: Inv at the compile-time stack the generator has at this moment
         engine.safety.append((list(cond), f'child {node!r} precondition: fp is the activation frame pointer', fp == self.entry.regs['fp']))
         engine.safety.append((list(cond), f'child {node!r} precondition: ap <= fp - offset (frame above array stack)', ap + o_now <= fp))
+        if not getattr(self, 'children_may_run_below_entry_ap', False):
+            # I-arrays: while a sub-expression / sub-block runs, every array that is in scope is still allocated: ap is not below the value it had
+            # when the construct was entered (a construct releases arrays only on its way out)
+            engine.safety.append((list(cond), f'child {node!r} precondition: arrays in scope stay allocated (ap not below its value at the entry of the construct)',
+                                  ap >= self.entry.regs['ap']))
         if not getattr(self, 'children_run_with_changed_defeat', False):
             # I-defeat: a sub-expression / sub-block runs under the defeat handler (and saved try frame) that was current when
             # the construct was entered -- a defeat inside it must still reach the enclosing try's handler
@@ -409,6 +414,10 @@ class Lemma:
             if dft:
                 items = [i for i in items if i not in dft]
                 self.prove_all('CHILD-DEFEAT', dft, ('C02', 'C03'))
+            arr = [i for i in items if 'arrays in scope stay allocated' in i[1]]
+            if arr:
+                items = [i for i in items if i not in arr]
+                self.prove_all('CHILD-ARRAYS', arr, ('C08', 'C04'))
         if not items:
             return True
         bad = None; n = 0
@@ -816,6 +825,9 @@ class Lemma:
                         if acc.type.access == AccessMode.RW and not val.writable:
                             raise SP.Mismatch(f'declared array {name}: writable reference to a read-only array')
                         continue
+                    decl_t = next((s_.var.type for s_ in stmts if isinstance(s_, ast.Declaration) and s_.var.name == name), None)
+                    if decl_t is not None and isinstance(decl_t, DataType) and isinstance(acc, (asm.IndirectByte, asm.StateByte)) != bool(decl_t.byte_sized):
+                        raise SP.Mismatch(f'declared variable {name} of type {decl_t} is bound to a {"byte" if isinstance(acc, (asm.IndirectByte, asm.StateByte)) else "word"}-sized slot')
                     v, saf = self.read_accessor(acc, leaf); extra_safety.extend(saf)
                     S.require_eq(v, val, f'value of declared variable {name}')
                 for arr, nbytes, known in S.fresh_arrays:
